@@ -113,6 +113,9 @@ type Engine struct {
 
 	globalInit  []*Obj
 	inInit      bool
+	initTrying  bool
+	atomicCells map[string]bool
+	chanFinal   map[*Obj]smt.Term
 	globalVals  map[*Obj]interface{}
 	strObjs     map[string]*Obj
 	Hints       []smt.Term
@@ -132,7 +135,7 @@ func NewEngine(prog *ssa.Program, pkg *ssa.Package, opts Opts) *Engine {
 	e := &Engine{C: smt.NewCtx(), Prog: prog, Pkg: pkg, Opts: opts, Fset: prog.Fset,
 		globals: map[*ssa.Global]*Obj{}, fninfo: map[*ssa.Function]*fnInfo{},
 		Encoded: map[*ssa.Function]int{}, StubsUsed: map[string]int{}, AlignHint: map[*Obj]int{},
-		Shape: map[string]int{}, Ghost: map[string]*Obj{}, curThread: -1, shapeSeq: map[string]int{}, globalVals: map[*Obj]interface{}{}}
+		Shape: map[string]int{}, Ghost: map[string]*Obj{}, curThread: -1, shapeSeq: map[string]int{}, chanFinal: map[*Obj]smt.Term{}, globalVals: map[*Obj]interface{}{}}
 	if e.Opts.DefaultUnroll == 0 {
 		e.Opts.DefaultUnroll = 64
 	}
